@@ -174,9 +174,10 @@ pub enum Policy {
   RandomWalk,
   /// random priorities with `depth - 1` priority change points
   Pct(u32),
-  /// random walk, except that one victim thread is parked at one of its yield points for a long
-  /// stretch (tens to thousands of steps of the others) and then resumed at once, wherever the
-  /// others happen to be (a caller preempted between two critical sections for a long time)
+  /// random walk, except that victim threads are parked at one of their own yield points for a
+  /// long stretch (tens to thousands of steps of the others) and then resumed at once, wherever
+  /// the others happen to be, and kept running for a few decisions (a caller preempted between
+  /// two critical sections for a long time)
   Park,
   /// replay: the recorded choice at every decision point (>= 2 runnable threads)
   Fixed(Vec<u8>),
@@ -248,10 +249,15 @@ pub struct St {
   fixed_pos: usize,
   pub diverged: bool,
   pct_change: Vec<u64>,
-  /// Policy::Park: (victim thread, step at which it is parked, steps of the others it sits out)
-  park_plan: (usize, u64, u64),
-  park_state: u8,
-  park_since: u64,
+  /// Policy::Park, per thread: (own yield count at which it is parked, steps of the others it
+  /// sits out; u64::MAX = never parked), state (0 not yet, 1 parked, 2 released), step it was
+  /// parked at, own yields so far
+  park_plan: Vec<(u64, u64)>,
+  park_state: Vec<u8>,
+  park_since: Vec<u64>,
+  park_yields: Vec<u64>,
+  /// (thread, decisions left) for which a released victim keeps the baton
+  park_boost: (usize, u32),
   trace: Vec<u8>,
   /// who was at a yield point when each decision was taken: (thread, its operation index)
   trace_owner: Vec<(u8, u32)>,
@@ -483,25 +489,44 @@ impl St {
       Policy::RandomWalk | Policy::Os => cands[self.rng.below(cands.len() as u64) as usize],
       Policy::Park => {
         let step = self.step;
-        let (victim, park_at, hold) = self.park_plan;
-        if self.park_state == 0 && step >= park_at && cur == victim && cur_ok {
-          self.park_state = 1;
-          self.park_since = step;
-        }
-        if self.park_state == 1 {
-          let others: Vec<usize> = cands.iter().cloned().filter(|c| *c != victim).collect();
-          if others.is_empty() || step.saturating_sub(self.park_since) >= hold {
-            self.park_state = 2;
-            if cands.contains(&victim) {
-              victim
-            } else {
-              cands[self.rng.below(cands.len() as u64) as usize]
-            }
-          } else {
-            others[self.rng.below(others.len() as u64) as usize]
+        if me < self.park_yields.len() {
+          self.park_yields[me] += 1;
+          if self.park_state[me] == 0 && self.park_yields[me] >= self.park_plan[me].0 && cands.contains(&me) {
+            self.park_state[me] = 1;
+            self.park_since[me] = step;
           }
+        }
+        // a victim whose time is up is resumed now and keeps the baton for a few decisions
+        let mut due: Option<usize> = None;
+        for c in &cands {
+          if self.park_state[*c] == 1 && step.saturating_sub(self.park_since[*c]) >= self.park_plan[*c].1 {
+            due = Some(*c);
+            break;
+          }
+        }
+        if let Some(v) = due {
+          self.park_state[v] = 2;
+          self.park_boost = (v, 3);
+          v
+        } else if self.park_boost.1 > 0 && cands.contains(&self.park_boost.0) {
+          self.park_boost.1 -= 1;
+          self.park_boost.0
         } else {
-          cands[self.rng.below(cands.len() as u64) as usize]
+          let free: Vec<usize> = cands.iter().cloned().filter(|c| self.park_state[*c] != 1).collect();
+          if free.is_empty() {
+            // everybody who can run is parked: the one parked first is released
+            let mut v = cands[0];
+            for c in &cands {
+              if self.park_since[*c] < self.park_since[v] {
+                v = *c;
+              }
+            }
+            self.park_state[v] = 2;
+            self.park_boost = (v, 3);
+            v
+          } else {
+            free[self.rng.below(free.len() as u64) as usize]
+          }
         }
       }
       Policy::Pct(_) => {
@@ -811,7 +836,20 @@ impl Sim {
       }
     }
     let os_policy = matches!(policy, Policy::Os);
-    let park_plan = (rng.below(nthreads as u64) as usize, rng.below(est_steps.max(8)), *rng.pick(&[20u64, 100, 400, 1500, 5000]));
+    // Park: thread 0 is never parked; each of the others is a victim with probability 3/4
+    // (at least one), parked at one of its first yields, for a fixed or a uniformly drawn stretch
+    let mut park_plan: Vec<(u64, u64)> = vec![(u64::MAX, 0); nthreads];
+    if matches!(policy, Policy::Park) && nthreads >= 2 {
+      let runner = 0usize;
+      let sure = 1 + rng.below(nthreads as u64 - 1) as usize;
+      for (t, p) in park_plan.iter_mut().enumerate() {
+        if t != runner && (t == sure || rng.chance(3, 4)) {
+          let at = if rng.chance(1, 2) { 1 + rng.below(12) } else { 1 + rng.below(40) };
+          let hold = if rng.chance(1, 2) { *rng.pick(&[20u64, 100, 400, 1500, 5000]) } else { rng.below((est_steps / 2).max(8)) };
+          *p = (at, hold);
+        }
+      }
+    }
     let st = St {
       threads,
       current: usize::MAX,
@@ -824,8 +862,10 @@ impl Sim {
       diverged: false,
       pct_change,
       park_plan,
-      park_state: 0,
-      park_since: 0,
+      park_state: vec![0; nthreads],
+      park_since: vec![0; nthreads],
+      park_yields: vec![0; nthreads],
+      park_boost: (0, 0),
       trace: Vec::new(),
       trace_owner: Vec::new(),
       log_hash: FNV0,
